@@ -124,7 +124,13 @@ func (b BugsByCreationTime) Less(i, j int) bool {
 	// by the first sorting using the logical clock. That means that if users
 	// synchronize their bugs regularly, the timestamp will rarely be used, and
 	// should still provide a kinda accurate sorting when needed.
-	return b[i].CreateUnixTime < b[j].CreateUnixTime
+	if b[i].CreateUnixTime != b[j].CreateUnixTime {
+		return b[i].CreateUnixTime < b[j].CreateUnixTime
+	}
+
+	// Still a tie (bugs created concurrently within the same second): fall back on the id so that
+	// the order is a total one and doesn't depend on the order the excerpts were collected in.
+	return b[i].id < b[j].id
 }
 
 func (b BugsByCreationTime) Swap(i, j int) {
@@ -152,7 +158,13 @@ func (b BugsByEditTime) Less(i, j int) bool {
 	// by the first sorting using the logical clock. That means that if users
 	// synchronize their bugs regularly, the timestamp will rarely be used, and
 	// should still provide a kinda accurate sorting when needed.
-	return b[i].EditUnixTime < b[j].EditUnixTime
+	if b[i].EditUnixTime != b[j].EditUnixTime {
+		return b[i].EditUnixTime < b[j].EditUnixTime
+	}
+
+	// Still a tie (bugs edited concurrently within the same second): fall back on the id so that
+	// the order is a total one and doesn't depend on the order the excerpts were collected in.
+	return b[i].id < b[j].id
 }
 
 func (b BugsByEditTime) Swap(i, j int) {
